@@ -394,7 +394,7 @@ fn msg_family(ctx: &Ctx, s2: bool, family: &'static str, rule: &'static str, ass
 
 fn msg_family_opts(ctx: &Ctx, opts: GenOpts, family: &'static str, rule: &'static str, assumptions: &[&str]) -> Outcome {
     let quick = ctx.quick();
-    let (nprog, cases) = if quick { (48usize, 64u32) } else { (320, 256) };
+    let (nprog, cases) = if quick { (48usize, 64u32) } else { (640, 256) };
     let programs = replay_programs(ctx).unwrap_or_else(|| crate::fam_msg(ctx.seed, nprog, &opts));
     e2_run(ctx, E2Spec { exe_prop: None, family, programs, cases, rule, assumptions: assumptions.iter().map(|s| s.to_string()).collect(), alias: None })
 }
@@ -508,7 +508,7 @@ pub fn fuzz_campaign(ctx: &Ctx, target: &str, runs: u64, out: &mut Outcome) {
 
 fn with_fuzz(ctx: &Ctx, mut out: Outcome, target: &str, note: &str) -> Outcome {
     if !ctx.quick() || ctx.replay.is_some() {
-        let runs = 2_000_000;
+        let runs = 5_000_000;
         fuzz_campaign(ctx, target, runs, &mut out);
         out.rule.push_str(&format!(" || (E5, thorough tier) coverage-guided libFuzzer campaign `{target}` of {runs} runs over a hand-written fixture contract with the semantic oracle inside the target: {note}"));
     }
@@ -567,7 +567,7 @@ pub fn merge_outcomes(mut a: Outcome, b: Outcome) -> Outcome {
 
 fn reply_family(ctx: &Ctx, any_order: bool, family: &'static str, rule: &'static str, assumptions: &[&str]) -> Outcome {
     let quick = ctx.quick();
-    let (nprog, cases) = if quick { (48usize, 200u32) } else { (320, 800) };
+    let (nprog, cases) = if quick { (48usize, 200u32) } else { (640, 800) };
     let programs = replay_programs(ctx).unwrap_or_else(|| crate::fam_reply(ctx.seed, nprog, &GenOpts::default(), any_order));
     e2_run(ctx, E2Spec { exe_prop: None, family, programs, cases, rule, assumptions: assumptions.iter().map(|s| s.to_string()).collect(), alias: None })
 }
